@@ -18,6 +18,7 @@ import shutil
 import subprocess
 import sys
 import tempfile
+import time
 
 VERIF = os.path.dirname(os.path.dirname(os.path.abspath(__file__)))
 ap = argparse.ArgumentParser()
@@ -98,7 +99,14 @@ for chk in a.checks.split(","):
                     "exit_code": 1 if "[mutate] exit code 1" in out else (0 if "[mutate] exit code 0" in out else 2),
                     "violation_signatures": sigs[:12], "summary": summ[-1] if summ else ""}
     print(chk, "->", results[chk]["exit_code"], sigs[:4])
-shutil.rmtree(os.path.join(VERIF, "replays"), ignore_errors=True)
+# replay files of scratch-copy runs carry a per-copy tag ("-m<n>"): remove those only, another run may be writing its own
+import glob
+for f_ in glob.glob(os.path.join(VERIF, "replays", "*-m[0-9]*.json")):
+    try:
+        if time.time() - os.path.getmtime(f_) > 1800:
+            os.remove(f_)
+    except OSError:
+        pass
 
 meta = {
     "name": a.name, "breaks_property": a.property, "repo_head_when_confirmed": head,
